@@ -100,6 +100,8 @@ def run_case(case):
             from ..domain import CROP_INFO
             if col == "FreshYield" and not CROP_INFO[spec["crop"]["name"]]["YldWC"]:
                 col = "FreshYield:crop-without-YldWC"
+            elif (spec["crop"].get("overrides") or {}).get("SwitchGDD") == 1:
+                tab, col = "any", "SwitchGDD=1"
             res["violations"].append({"sig": f"C16:non-finite:{tab}:{col}", "msg": f"non-finite value in {tab}.{col} at row {r} (all: {bad[:5]})",
                                       "where": {"t": r if isinstance(r, int) else None}})
         if not t["finished"]:
@@ -124,7 +126,8 @@ def run_case(case):
 
 
 def on_timeout(case, res):
-    res["violations"].append({"sig": "C16:hang@" + str(res.get("timeout_at")), "msg": res["reason"], "where": {}})
+    tag = ":SwitchGDD=1" if (case["spec"]["crop"].get("overrides") or {}).get("SwitchGDD") == 1 else ""
+    res["violations"].append({"sig": "C16:hang@" + str(res.get("timeout_at")) + tag, "msg": res["reason"], "where": {}})
     return res
 
 
